@@ -24,7 +24,7 @@ Lemma pending_of_conn s k cn : conns s k = Some cn -> pending_of s k = pending (
 Proof. intro H. unfold pending_of, pend_c0. rewrite H. destruct (c_cc cn); reflexivity. Qed.
 
 (* effect of the handler on the pending challenge and on the nonce counter *)
-Lemma auth_result_pending keep s c a m s1 c1 ar : auth_result hmac mf pb keep s c a m s1 c1 ar ->
+Lemma auth_result_pending chk keep s c a m s1 c1 ar : auth_result hmac mf pb chk keep s c a m s1 c1 ar ->
   (pending c1 = pending c /\ next_nonce s1 = next_nonce s) \/
   (pending c1 = Some (next_nonce s) /\ next_nonce s1 = next_nonce s + 1) \/
   (pending c1 = None /\ next_nonce s1 = next_nonce s).
@@ -37,9 +37,9 @@ Proof.
   - right. right. split; [reflexivity|]. destruct (rf_frame mf pb s a) as (_ & _ & _ & _ & Hn); exact Hn.
 Qed.
 
-Lemma verif_target_consumed keep s k m cn ch s1 c1 ar :
-  conns s k = Some cn -> verif_target s k m = Some ch ->
-  auth_result hmac mf pb keep s (pend_c0 cn) (c_addr cn) m s1 c1 ar ->
+Lemma verif_target_consumed chk keep s k m cn ch s1 c1 ar :
+  conns s k = Some cn -> verif_target chk s k m = Some ch ->
+  auth_result hmac mf pb chk keep s (pend_c0 cn) (c_addr cn) m s1 c1 ar ->
   pending (pend_c0 cn) = Some ch /\ pending c1 = None /\ next_nonce s1 = next_nonce s.
 Proof.
   intros Hc Hv Har. unfold verif_target in Hv. rewrite Hc in Hv.
@@ -66,17 +66,17 @@ Proof.
 Qed.
 
 (* pending challenges after a handshake: on the acting connection what the handler left, elsewhere unchanged or gone *)
-Lemma handle_pending v s k h cn s1 c1 ar :
-  conns s k = Some cn -> auth (v_first_keeps v) s (pend_c0 cn) (c_addr cn) h = (s1, c1, ar) ->
-  let s' := fst (handle v s k (Some h)) in
+Lemma handle_pending chk v s k h cn s1 c1 ar :
+  conns s k = Some cn -> auth chk (v_first_keeps v) s (pend_c0 cn) (c_addr cn) h = (s1, c1, ar) ->
+  let s' := fst (handle chk v s k (Some h)) in
   next_nonce s' = next_nonce s1 /\
   pending_of s' k = pending c1 /\
   (forall k', k' <> k -> pending_of s' k' = pending_of s k' \/ pending_of s' k' = None).
 Proof.
   intros Hc Ha s'.
-  pose proof (auth_cases hmac mf pb (v_first_keeps v) s (pend_c0 cn) (c_addr cn) h) as Har. rewrite Ha in Har.
-  destruct (auth_result_frame _ _ _ _ _ _ _ _ _ _ _ Har) as [Hcs _].
-  destruct (handle_shape hmac mf pb v s k h cn Hc s1 c1 ar Ha) as [He|(He & _ & _ & _)]; unfold s'; rewrite He.
+  pose proof (auth_cases hmac mf pb chk (v_first_keeps v) s (pend_c0 cn) (c_addr cn) h) as Har. rewrite Ha in Har.
+  destruct (auth_result_frame _ _ _ _ _ _ _ _ _ _ _ _ Har) as [Hcs _].
+  destruct (handle_shape hmac mf pb chk v s k h cn Hc s1 c1 ar Ha) as [He|(He & _ & _ & _)]; unfold s'; rewrite He.
   - split; [reflexivity|]. split.
     + unfold pending_of. rewrite post_auth_conns, N.eqb_refl. reflexivity.
     + intros k' Hn. left. unfold pending_of. rewrite post_auth_conns.
@@ -125,10 +125,10 @@ Proof.
     try (split; [cbn; lia|intros k' n H; left; exact H]).
   - (* EMsg *) destruct m as [h|]; [|split; [cbn; lia|intros k' n H; left; exact H]].
     destruct (conns s k) as [cn|] eqn:Hc; [|unfold Auth.handle; rewrite Hc; split; [cbn; lia|intros k' n H; left; exact H]].
-    destruct (auth (v_first_keeps v) s (pend_c0 cn) (c_addr cn) h) as [[s1 c1] ar] eqn:Ha.
-    pose proof (auth_cases hmac mf pb (v_first_keeps v) s (pend_c0 cn) (c_addr cn) h) as Har. rewrite Ha in Har.
-    destruct (handle_pending v s k h cn s1 c1 ar Hc Ha) as (Hn & Hk & Ho). cbv zeta in *.
-    pose proof (auth_result_pending _ _ _ _ _ _ _ _ Har) as Hp.
+    destruct (auth chk (v_first_keeps v) s (pend_c0 cn) (c_addr cn) h) as [[s1 c1] ar] eqn:Ha.
+    pose proof (auth_cases hmac mf pb chk (v_first_keeps v) s (pend_c0 cn) (c_addr cn) h) as Har. rewrite Ha in Har.
+    destruct (handle_pending chk v s k h cn s1 c1 ar Hc Ha) as (Hn & Hk & Ho). cbv zeta in *.
+    pose proof (auth_result_pending _ _ _ _ _ _ _ _ _ Har) as Hp.
     split; [rewrite Hn; destruct Hp as [[_ E]|[[_ E]|[_ E]]]; lia|].
     intros k' n H. destruct (N.eq_dec k' k) as [->|Hne].
     + rewrite Hk in H. rewrite Hn. rewrite (pending_of_conn s k cn Hc).
@@ -168,8 +168,8 @@ Proof.
       all: destruct (N.eq_dec k1 k2) as [E|Hne]; [exact E|exfalso].
       all: try (destruct m as [h|]; [|specialize (H1 _ _ Ha); lia];
            destruct (conns s k) as [cn|] eqn:Hc; [|unfold Auth.handle in Ha; rewrite Hc in Ha; specialize (H1 _ _ Ha); lia];
-           destruct (auth (v_first_keeps v) s (pend_c0 cn) (c_addr cn) h) as [[s1 c1] ar] eqn:Hau;
-           destruct (handle_pending v s k h cn s1 c1 ar Hc Hau) as (_ & _ & Ho); cbv zeta in Ho;
+           destruct (auth chk (v_first_keeps v) s (pend_c0 cn) (c_addr cn) h) as [[s1 c1] ar] eqn:Hau;
+           destruct (handle_pending chk v s k h cn s1 c1 ar Hc Hau) as (_ & _ & Ho); cbv zeta in Ho;
            destruct (N.eq_dec k1 k) as [->|Hn1];
            [ destruct (Ho k2 (not_eq_sym Hne)) as [E|E]; rewrite E in Hb; [specialize (H1 _ _ Hb); lia|discriminate]
            | destruct (Ho k1 Hn1) as [E|E]; rewrite E in Ha; [specialize (H1 _ _ Ha); lia|discriminate] ]).
@@ -189,7 +189,7 @@ Proof. split; intros; discriminate. Qed.
 
 Definition avail (s : srv) (ch : N) : Prop := (exists k, pending_of s k = Some ch) \/ next_nonce s <= ch.
 
-Lemma verif_target_pending s k m ch : verif_target s k m = Some ch -> pending_of s k = Some ch.
+Lemma verif_target_pending s k m ch : verif_target chk s k m = Some ch -> pending_of s k = Some ch.
 Proof.
   unfold verif_target, pending_of. destruct (conns s k) as [cn|]; [|discriminate].
   destruct (blocked s (c_addr cn) || banned s (c_addr cn)); [discriminate|].
@@ -203,24 +203,24 @@ Proof.
   induction es as [|e es IH]; intros s ch Hin; [contradiction|].
   cbn [Auth.targets] in Hin. apply in_app_or in Hin as [Hin|Hin].
   - destruct e; try contradiction. destruct m as [m|]; [|contradiction].
-    destruct (verif_target s k m) as [c|] eqn:Hv; [|contradiction]. destruct Hin as [<-|[]].
+    destruct (verif_target chk s k m) as [c|] eqn:Hv; [|contradiction]. destruct Hin as [<-|[]].
     left. exists k. apply verif_target_pending in Hv. exact Hv.
   - destruct (IH _ _ Hin) as [[k Hk]|Hge]; destruct (step_pending v s e) as [Hm Hp]; cbv zeta in *.
     + destruct (Hp _ _ Hk) as [Ho|[Hl _]]; [left; exists k; exact Ho|right; exact Hl].
     + right. lia.
 Qed.
 
-Lemma target_gone v s k m ch : pend_inv s -> verif_target s k m = Some ch ->
+Lemma target_gone v s k m ch : pend_inv s -> verif_target chk s k m = Some ch ->
   let s' := fst (step v s (EMsg k (Some m))) in
   (forall k', pending_of s' k' <> Some ch) /\ next_nonce s' = next_nonce s.
 Proof.
   intros [H1 H2] Hv. cbn [Auth.step]. cbv zeta.
   pose proof (verif_target_pending _ _ _ _ Hv) as Hpk.
   destruct (conns s k) as [cn|] eqn:Hc; [|unfold pending_of in Hpk; rewrite Hc in Hpk; discriminate].
-  destruct (auth (v_first_keeps v) s (pend_c0 cn) (c_addr cn) m) as [[s1 c1] ar] eqn:Ha.
-  pose proof (auth_cases hmac mf pb (v_first_keeps v) s (pend_c0 cn) (c_addr cn) m) as Har. rewrite Ha in Har.
-  destruct (verif_target_consumed _ _ _ _ _ _ _ _ _ Hc Hv Har) as (_ & Hnone & Hnn).
-  destruct (handle_pending v s k m cn s1 c1 ar Hc Ha) as (Hn & Hk & Ho). cbv zeta in *.
+  destruct (auth chk (v_first_keeps v) s (pend_c0 cn) (c_addr cn) m) as [[s1 c1] ar] eqn:Ha.
+  pose proof (auth_cases hmac mf pb chk (v_first_keeps v) s (pend_c0 cn) (c_addr cn) m) as Har. rewrite Ha in Har.
+  destruct (verif_target_consumed _ _ _ _ _ _ _ _ _ _ Hc Hv Har) as (_ & Hnone & Hnn).
+  destruct (handle_pending chk v s k m cn s1 c1 ar Hc Ha) as (Hn & Hk & Ho). cbv zeta in *.
   split; [|rewrite Hn; exact Hnn].
   intros k' Hk'. destruct (N.eq_dec k' k) as [->|Hne].
   - rewrite Hk, Hnone in Hk'. discriminate.
@@ -233,7 +233,7 @@ Proof.
   induction es as [|e es IH]; intros s Hinv; [constructor|].
   cbn [Auth.targets]. pose proof (IH _ (step_pend_inv v s e Hinv)) as Htl.
   destruct e; try exact Htl. destruct m as [m|]; [|exact Htl].
-  destruct (verif_target s k m) as [ch|] eqn:Hv; [|exact Htl].
+  destruct (verif_target chk s k m) as [ch|] eqn:Hv; [|exact Htl].
   cbn [app]. constructor; [|exact Htl]. intro Hin.
   destruct (target_gone v s k m ch Hinv Hv) as [Hgone Hnn]. cbv zeta in *.
   destruct (targets_avail v es _ _ Hin) as [[k' Hk']|Hge].
@@ -245,14 +245,14 @@ Theorem challenge_single_use v es : NoDup (targets v init es).
 Proof. apply targets_nodup. apply init_pend_inv. Qed.
 
 Theorem success_is_a_counted_verification v s k h : pend_inv s ->
-  o_auth (snd (handle v s k (Some h))) = Some ASuccess ->
-  exists ch, verif_target s k h = Some ch /\ ch < next_nonce s.
+  o_auth (snd (handle chk v s k (Some h))) = Some ASuccess ->
+  exists ch, verif_target chk s k h = Some ch /\ ch < next_nonce s.
 Proof.
   intros [H1 _] Ho.
   destruct (conns s k) as [cn|] eqn:Hc; [|unfold Auth.handle in Ho; rewrite Hc in Ho; discriminate].
-  destruct (auth (v_first_keeps v) s (pend_c0 cn) (c_addr cn) h) as [[s1 c1] ar] eqn:Ha.
-  pose proof (auth_cases hmac mf pb (v_first_keeps v) s (pend_c0 cn) (c_addr cn) h) as Har. rewrite Ha in Har.
-  rewrite (handle_out_auth hmac mf pb v s k h cn Hc _ _ _ Ha) in Ho. injection Ho as ->.
+  destruct (auth chk (v_first_keeps v) s (pend_c0 cn) (c_addr cn) h) as [[s1 c1] ar] eqn:Ha.
+  pose proof (auth_cases hmac mf pb chk (v_first_keeps v) s (pend_c0 cn) (c_addr cn) h) as Har. rewrite Ha in Har.
+  rewrite (handle_out_auth hmac mf pb chk v s k h cn Hc _ _ _ Ha) in Ho. injection Ho as ->.
   inversion Har as [| | | | | |cl sec ch Hb Hn Hcl He Hst Hr Hp| |]; subst.
   exists ch. split.
   - unfold verif_target. rewrite Hc, Hb, Hn, Hcl, He, Hr. cbn [orb].
